@@ -630,6 +630,7 @@ class EnumConverter(Converter):
         if data_type is None or not isinstance(data_type, EnumMeta):
             raise ConverterError(f"'{data_type}' is not an enum")
 
+        raw = value
         if collections.is_array(value):
             values = value
         elif isinstance(value, str):
@@ -642,6 +643,11 @@ class EnumConverter(Converter):
         for member in cast(type[Enum], data_type):
             if self.match(value, values, length, member.value, **kwargs):
                 return member
+
+        if isinstance(raw, str) and raw != value:
+            # The surrounding whitespace of a string value may be significant
+            with suppress(ValueError):
+                return data_type(raw)
 
         raise ConverterError
 
